@@ -6,7 +6,7 @@ META = {
     "property_id": "C11",
     "level": "model_checking",
     "technique": "TLA+ spec of partitioned trie generation (TrieGen.tla on top of MPT.tla) model-checked with TLC over all flat-state layouts of a small key universe and over partition interleavings/flush points; every layout TLC enumerated is materialised with rawdb snapshot writers and generated with triedb.GenerateTrie in both schemes; random large flat states validated against TrieGenTrace.tla",
-    "text": "TrieGen.tla models generatePartition as the merge-join of the account and storage tables (hold, the three dangling-storage cases, stale-root rewrite, batch, flush) per first-nibble partition and assembleRoot with its 0 / 1 (branch fold, short-node fold with orphan deletion) / >=2 cases on the structural trie of MPT.tla. TLC checks for every layout (each key: absent / fresh / stale account x owned slots, including dangling owners before, between and after accounts and in empty partitions): root = canonical root of the corrected state, flat state corrected and nothing else touched, node store = exactly the canonical node set, counters exact, mismatch reported iff another root is expected; a second configuration lets partitions interleave and flush anywhere. Each enumerated layout is executed on the real generator (path and hash scheme, GOMAXPROCS 1..16): counters, flat state, trie-node key space (paths) must equal the specification's, the store must open at the canonical root and read back the corrected state, a different expected root must fail. Random flat states up to 12k accounts (batch flushes) are generated and their outcome validated by TLC.",
+    "text": "TrieGen.tla models generatePartition as the merge-join of the account and storage tables (hold, the three dangling-storage cases, stale-root rewrite, batch, flush) per first-nibble partition and assembleRoot with its 0 / 1 (branch fold, short-node fold with orphan deletion) / >=2 cases on the structural trie of MPT.tla. TLC checks for every layout (each key: absent / fresh / stale account x owned slots, including dangling owners before, between and after accounts and in empty partitions): root = canonical root of the corrected state, flat state corrected and nothing else touched, node store = exactly the canonical node set, counters exact, mismatch reported iff another root is expected; a second configuration lets partitions interleave and flush anywhere. Each enumerated layout is executed on the real generator (path and hash scheme, GOMAXPROCS 1..16): counters, flat state, trie-node key space (paths) must equal the specification's, the store must open at the canonical root and read back the corrected state, a different expected root must fail. Random flat states up to 12k accounts (batch flushes; the large ones and every fourth on a pebble store, where the reopen-after-flush of the iterators is real) are generated and their outcome validated by TLC.",
     "note": "Trusts TLC, MPT.tla's Canon as the definition of the canonical trie, package trie's ordinary Trie (used by the driver to compute the reference root/node hashes of the corrected state, independent of the partitioned generator), and the key mapping of harness/triekit. Stack-trie node emission is abstracted to 'emits Canon of the keys fed'. Cancellation is not modelled.",
     "design_ref": "3.2 C11",
 }
